@@ -181,6 +181,85 @@ def real_readiness(out):
                     if problem is not None:
                         out.failures.append(('real-readiness', 'real connection, the module\'s own readiness test: peer sent %r and ended with %s: %s' % (data, ending, problem),
                                              {'component': 'real-readiness', 'bytes': data, 'ending': ending, 'split': split}))
+    # a port that has sent something and is then closed: the peer receives what was sent and then sees the disconnect
+    for how in ('close', 'with', 'send-twice-close'):
+        n += 1
+        a, b = tcp_pair()
+        problem = None
+        try:
+            import mido
+            port = sockets.SocketPort('127.0.0.1', 1, conn=b)
+            if how == 'with':
+                with port:
+                    port.send(mido.Message('note_on', note=5))
+            else:
+                port.send(mido.Message('note_on', note=5))
+                if how == 'send-twice-close':
+                    port.send(mido.Message('clock'))
+                port.close()
+            a.settimeout(2.0)
+            got = b''
+            try:
+                while True:
+                    chunk = a.recv(64)
+                    if not chunk:
+                        break
+                    got += chunk
+            except (socket.timeout, TimeoutError):
+                problem = 'the peer received %r and then no disconnect within 2 s' % (got,)
+            want = bytes([0x90, 5, 64]) + (bytes([0xf8]) if how == 'send-twice-close' else b'')
+            if problem is None and got != want:
+                problem = 'the peer received %r, expected %r' % (got, want)
+        except Exception as e:  # noqa: BLE001
+            problem = 'raised %r' % (e,)
+        finally:
+            for s_ in (a, b):
+                try:
+                    s_.close()
+                except OSError:
+                    pass
+        if problem is not None:
+            out.failures.append(('close-after-send', 'a socket port that sent and was then closed (%s): %s' % (how, problem), {'component': 'real-readiness', 'how': how}))
+    # a server port polled by one thread while another thread waits in a blocking accept(): the poll must come back
+    import threading
+    for _ in range(2):
+        n += 1
+        server = sockets.PortServer('127.0.0.1', 0, backlog=8)
+        addr = server._socket.getsockname()
+        socks, problem = [], None
+        try:
+            c1 = socket.socket(); c1.connect(addr); socks.append(c1)
+            first = server.accept()
+            server.ports.append(first)
+            c1.sendall(bytes([0x90, 9, 9]))
+            waiter = threading.Thread(target=lambda: _quiet(server.accept), daemon=True)
+            waiter.start()
+            time.sleep(0.05)                                   # the other thread is now waiting for a client that does not come
+            result = []
+            poller = threading.Thread(target=lambda: result.append(_poll_some(server, 200)), daemon=True)
+            poller.start()
+            poller.join(3.0)
+            if poller.is_alive():
+                problem = 'poll() did not come back within 3 s while another thread waited in accept()'
+            elif not result or result[0] is None:
+                problem = 'poll() handed out nothing although a client had sent a message'
+            c2 = socket.socket(); c2.connect(addr); socks.append(c2)   # lets the waiting accept() go
+            waiter.join(2.0)
+            poller.join(2.0)
+        except Exception as e:  # noqa: BLE001
+            problem = 'raised %r' % (e,)
+        finally:
+            try:
+                server.close()
+            except Exception:  # noqa: BLE001
+                pass
+            for c_ in socks:
+                try:
+                    c_.close()
+                except OSError:
+                    pass
+        if problem is not None:
+            out.failures.append(('server-blocked-by-accept', 'a server port with one thread in a blocking accept(): %s' % problem, {'component': 'real-readiness'}))
     # a server port: clients that come and go while it is being polled - each one's messages are handed out, whoever left just before
     for scenario in range(6):
         n += 1
@@ -243,6 +322,23 @@ def real_readiness(out):
                                  {'component': 'real-readiness', 'scenario': scenario}))
     out.evaluations += n
     out.components['unscheduled loop-back connections with the real readiness test (implementation against the statement)'] = {'cases': n}
+
+
+def _quiet(fn):
+    try:
+        fn()
+    except Exception:  # noqa: BLE001
+        pass
+
+
+def _poll_some(server, rounds):
+    import time
+    for _ in range(rounds):
+        m = server.poll()
+        if m is not None:
+            return m
+        time.sleep(0.002)
+    return None
 
 
 def impl_sock(case, structured=True):
